@@ -999,7 +999,13 @@ impl Rasn {
         };
 
         let root = match oid.0.first().as_ref() {
-            Some(arc) if arc.name == Some("itu-t".into()) || arc.number == Some(0) => Some(0u8),
+            Some(arc)
+                if arc.name == Some("itu-t".into())
+                    || arc.name == Some("ccitt".into())
+                    || arc.number == Some(0) =>
+            {
+                Some(0u8)
+            }
             Some(arc) if arc.name == Some("iso".into()) || arc.number == Some(1) => Some(1u8),
             _ => None,
         };
